@@ -291,7 +291,7 @@ func c18(e *Env) {
 		walk(t)
 	}
 	c.Floor("language-keys", 2*100)
-	e.tableImmutability("table-immutability")
+	e.tableImmutability("table-immutability", "v3/report/names", "v3/metric")
 	for _, p := range e.F.Problems {
 		c.Fail("table-model", "package-level tables", "", p)
 	}
